@@ -244,7 +244,7 @@ void Ctx::c19() {
     // What a correct client can recognise on each connection: frame the emitted byte stream with the reference framer
     // and decode each frame strictly. Only those packets can be witnesses of a successful completion.
     struct WF { int conn; Packet p; size_t off_end; uint64_t delivered_seq; };
-    std::vector<WF> wf;
+    std::vector<WF> wf, trailing;
     for (auto& bcp : B.conns) {
         if (!bcp) continue;
         Framer fr; size_t pos = 0;
@@ -259,7 +259,9 @@ void Ctx::c19() {
             pos += bytes.size();
             for (auto& f : frames) {
                 Packet p;
-                if (decode_strict(f, p, true).empty()) wf.push_back({bcp->conn, p, pos, sp.delivered_seq});
+                std::string e = decode_strict(f, p, true);
+                if (e.empty()) wf.push_back({bcp->conn, p, pos, sp.delivered_seq});
+                else if (e.find("trailing bytes") != std::string::npos) trailing.push_back({bcp->conn, p, pos, sp.delivered_seq});   // fields parsed, garbage after them
             }
             if (!fr.error.empty()) break;
         }
@@ -284,8 +286,10 @@ void Ctx::c19() {
                 ok = true;
             }
         }
+        bool only_trailing = false;
+        if (!ok) for (auto& w : trailing) if (pids.count(w.p.pid) && (w.p.type == want || (want == PUBCOMP && w.p.type == PUBREC))) only_trailing = true;
         if (!ok)
-            fail("C19", "success_without_wellformed_ack", opstr(o) + " completed successfully during a hostile window, but no well-formed " + ptype_name(want) +
+            fail("C19", only_trailing ? "ack_with_trailing_bytes_accepted" : "success_without_wellformed_ack", opstr(o) + " completed successfully during a hostile window, but no well-formed " + ptype_name(want) +
                  " for its packet identifier is contained in what the broker sent");
     }
 }
